@@ -155,3 +155,34 @@ theorem consume_consistent (n : Nat) (s : NS) (p : Pt) (h : Consistent n s) (hp 
     · simp [keys, h.evid]
 
 end NessaiVerif.Interrupt
+
+namespace NessaiVerif.Interrupt
+open NessaiVerif.Np
+
+/-- a complete iteration moves all four counters together (or does nothing on an empty live set) -/
+theorem consume_offsets (s : NS) (p : Pt) :
+    ((consume canonicalOrder s p).evid.length : Int) - (consume canonicalOrder s p).iter = s.evid.length - s.iter ∧
+    ((consume canonicalOrder s p).nested.length : Int) - (consume canonicalOrder s p).iter = s.nested.length - s.iter ∧
+    ((consume canonicalOrder s p).idx.length : Int) - (consume canonicalOrder s p).iter = s.idx.length - s.iter := by
+  cases hl : s.live with
+  | nil => simp [consume, runTags, hl]
+  | cons w rest =>
+    rw [consume_eq s w rest p hl]
+    simp only [List.length_append, List.length_cons, List.length_nil]
+    omega
+
+/-- the counters of the state pickled by an interruption after `j` mutating statements, `2 ≤ j ≤ 6` -/
+theorem interrupted_offsets (s : NS) (p : Pt) (j : Nat) (hj : 2 ≤ j ∧ j ≤ 6) (hne : s.live ≠ []) :
+    let t := runTags s p (canonicalOrder.take j)
+    (t.evid.length : Int) - t.iter ≠ s.evid.length - s.iter ∨
+    (t.idx.length : Int) - t.iter ≠ s.idx.length - s.iter := by
+  cases hl : s.live with
+  | nil => exact absurd hl hne
+  | cons w rest =>
+    obtain rfl | rfl | rfl | rfl | rfl : j = 2 ∨ j = 3 ∨ j = 4 ∨ j = 5 ∨ j = 6 := by omega
+    all_goals
+      simp only [runTags, hl, canonicalOrder, List.take, applyTags, applyTag, List.length_append,
+        List.length_cons, List.length_nil]
+      omega
+
+end NessaiVerif.Interrupt
